@@ -739,8 +739,73 @@ def oracleC19 (c : Case) : Option (List String) :=
     some [if isResidue c then "C19.rejected_rounding_residue(" ++ c.label ++ ")"
           else "C19.rejected_ill_formed_result(" ++ c.label ++ ")"]
 
+/-- C07: algebraic laws of fusion (per-case part; commutativity and order-independence are cross-case checks) -/
+def oracleC07 (c : Case) : Option (List String) :=
+  match allSome c.inp with
+  | none => none
+  | some xs =>
+  let n := c.ints.getD 0 0
+  let op := opOfNat (c.ints.getD 1 0)
+  let e := c.eps
+  let τ := tauSpec c.fmt
+  match c.op with
+  | "fuse" =>
+    let (b1, u1, a1) := opinionAt xs 0 n
+    let (b2, u2, a2) := opinionAt xs (2 * n + 1) n
+    if !(wfOpinion 0 b1 u1 a1 && wfOpinion 0 b2 u2 a2) then none else
+    let band (v : Rat) : Bool := (decide (0 < v) && decide (v ≤ e)) || (decide (1 - 2 * e ≤ v) && decide (v < 1))
+    if band u1 || band u2 then none else
+    withValue c "C07" fun out =>
+      let (b, u, a) := opinionAt out 0 n
+      let same := decide (b1 = b2) && decide (u1 = u2) && decide (a1 = a2)
+      let lo := minQ u1 u2
+      let hi := maxQ u1 u2
+      (if same && (op == .avg || op == .wgh) then
+          check "C07.idempotent" (closeList τ b b1 && closeQ τ u u1 && closeList τ a a1) else [])
+      ++ (if (op == .acm || op == .wgh) && u1 = 1 && u2 < 1 then
+          check "C07.vacuous_neutral" (b == b2 && decide (u = u2) && a == a2) else [])
+      ++ (if (op == .acm || op == .wgh) && u2 = 1 && u1 < 1 then
+          check "C07.vacuous_neutral" (b == b1 && decide (u = u1) && a == a1) else [])
+      ++ (if op == .acm && !(u1 = 0 && u2 = 0) then check "C07.acm_u_le_min" (decide (u ≤ lo + τ)) else [])
+      ++ (if (op == .avg || op == .wgh) && !(u1 = 0 && u2 = 0) && !(u1 = 1 && u2 = 1) then
+            check "C07.u_between" (decide (lo - τ ≤ u) && decide (u ≤ hi + τ)) else [])
+  | "fuse_fold" =>
+    let k := c.ints.getD 2 0
+    if op != .acm || k == 0 then none else
+    let ws := (List.range k).map fun j => opinionAt xs (j * (2 * n + 1)) n
+    let a0 := (ws.headD ([], 0, [])).2.2
+    -- stated domain: non-dogmatic opinions sharing a base rate (and outside the tolerance bands)
+    if !(ws.all fun w => wfOpinion 0 w.1 w.2.1 w.2.2 && decide (w.2.2 = a0) && decide (e < w.2.1)
+          && !(decide (1 - 2 * e ≤ w.2.1) && decide (w.2.1 < 1))) then none else
+    withValue c "C07" fun out =>
+      let (b, u, a) := opinionAt out 0 n
+      -- canonical-order fold of the evidence-space definition
+      let first := ws.headD ([], 0, [])
+      let sp := (ws.drop 1).foldl (fun (acc : List Rat × Rat) w => fuseSimplexSpec .acm acc.1 acc.2 w.1 w.2.1) (first.1, first.2.1)
+      check "C07.fold_order_independent" (closeList (τ * k) b sp.1 && closeQ (τ * k) u sp.2 && closeList (τ * k) a a0)
+  | _ => none
+
+/-- C16: storage / passing-style independence (per-case part) -/
+def oracleC16 (c : Case) : Option (List String) :=
+  match c.op with
+  | "fuse_ss" =>
+    if c.ints.getD 1 0 == 1 then some (check "C16.ecm_simplex_refused" (c.cls == "panic"))
+    else some (check "C16.simplex_fuse_value" (c.cls == "ok"))
+  | "fuse_os" =>
+    match allSome c.inp, allSome c.out with
+    | some xs, some out =>
+      let n := c.ints.getD 0 0
+      let (_, _, a1) := opinionAt xs 0 n
+      let (_, _, a) := opinionAt out 0 n
+      if c.cls != "ok" then some ["C16.no_value"] else
+      some (check "C16.bare_simplex_keeps_base_rate" (a == a1))
+    | _, _ => none
+  | _ => if c.cls == "ok" || c.cls == "none" || c.cls == "panic" || c.cls == "err" then some [] else none
+
 def oracle (c : Case) : Option (List String) :=
   match c.prop with
+  | "C07" => oracleC07 c
+  | "C16" => oracleC16 c
   | "C01" => oracleC01 c
   | "C04" => oracleC04 c
   | "C06" => oracleC06 c
